@@ -252,7 +252,11 @@ pub fn scenario(g: &mut G, ctx: &RunCtx) -> RunReport {
         return resend_family(g, ctx);
     }
     let plan: ReqPlan = reqgen::gen_request(g, if ctx.thorough { 200_000 } else { 40_000 });
-    let (faults, fname) = gen_write_faults(g);
+    let (mut faults, fname) = gen_write_faults(g);
+    // (a body of many megabytes to a peer that takes a few octets per write would be millions of events)
+    if matches!(&plan.body, reqgen::BodySpec::Custom(c) if c.ops.iter().any(|o| matches!(o, reqgen::WOp::Write(b) | reqgen::WOp::WriteAll(b) if b.len() > (1 << 20)))) && faults.max_write != 0 && faults.max_write < 8191 {
+        faults.max_write = 8191;
+    }
     // drawn after the plan of the main family: recorded tapes keep their meaning
     if g.chance(1, 10) {
         return buffer_edge_family(g, ctx);
